@@ -216,13 +216,27 @@ func (relay *Relay) serveWriteLoop(
 		pingTickCh = pingTicker.C
 	}
 
+	// A ping waits for its pong, which only arrives while the read loop is reading.
+	// The read loop in turn may be waiting for this loop to take a message, so the
+	// ping must not keep this loop from writing.
+	pingErrCh := make(chan error, 1)
+	pinging := false
+
 	for {
 		select {
 		case <-ctx.Done():
 			return fmt.Errorf("serverWrite terminated by ctx: %w", ctx.Err())
 
 		case <-pingTickCh:
-			if err := relay.sendPingWithTimeout(ctx, conn); err != nil {
+			if pinging {
+				continue
+			}
+			pinging = true
+			go func() { pingErrCh <- relay.sendPingWithTimeout(ctx, conn) }()
+
+		case err := <-pingErrCh:
+			pinging = false
+			if err != nil {
 				return fmt.Errorf("failed to send ping: %w", err)
 			}
 
